@@ -152,6 +152,16 @@ fn run_%(n)s(ctor: u32, input: &str, clone_at: Option<usize>, out: &mut String) 
     return "\n".join(parts)
 
 
+def _limit_memory(gb):
+    """address-space limit for a child: a changed macro or generated lexer that allocates without bound
+    must fail (and be reported), not take the machine down"""
+    import resource
+
+    def f():
+        resource.setrlimit(resource.RLIMIT_AS, (gb << 30, gb << 30))
+    return f
+
+
 def rustc_compile(src_path, out_path, dump_dir, paths, timeout=300, opt=False):
     env = dict(os.environ)
     env["LEXGEN_VERIF_DUMP"] = dump_dir
@@ -163,7 +173,7 @@ def rustc_compile(src_path, out_path, dump_dir, paths, timeout=300, opt=False):
     t0 = time.time()
     try:
         r = subprocess.run(cmd, env=env, stdout=subprocess.PIPE, stderr=subprocess.STDOUT, text=True,
-                           timeout=timeout, errors="replace")
+                           timeout=timeout, errors="replace", preexec_fn=_limit_memory(8))
         return r.returncode, r.stdout, time.time() - t0
     except subprocess.TimeoutExpired:
         return -9, "TIMEOUT after %ds" % timeout, time.time() - t0
@@ -202,7 +212,8 @@ class Batch:
                                               ",".join(map(str, cps)) if cps else "-"))
         try:
             r = subprocess.run([os.path.join(self.dir, "prog"), cf, str(timeout_ms)], stdout=subprocess.PIPE,
-                               stderr=subprocess.DEVNULL, text=True, timeout=total_timeout)
+                               stderr=subprocess.DEVNULL, text=True, timeout=total_timeout,
+                               preexec_fn=_limit_memory(8))
             out = r.stdout
         except subprocess.TimeoutExpired as e:
             out = (e.stdout or b"").decode() if isinstance(e.stdout, bytes) else (e.stdout or "")
